@@ -35,7 +35,7 @@ RULE = ('runs generated from the seed, one history per run: a database world (3-
         'in-place modification of returned signature arrays), session abuse on the default session obtained four ways (modify/add/delete, flush, autoflushing query, commit, sessionmaker.begin block), '
         'failing commands (missing input, bad options, foreign signature file, corrupt gzip, unwritable output), a command interrupted by KeyboardInterrupt at line event k, a command SIGKILLed at line event k. '
         'After every operation: sha-256 of the .gdb and .gs files, SQL statements that reached the database, whether commit() raised. '
-        'A case is the sequence of operation kinds; non-trivial = length>=2 and contains a session-abuse, failing, interrupted or killed step.')
+        'A case is the sequence of operation kinds; non-trivial = length>=2 and contains a session-abuse, failing, interrupted or killed step. Further drawn dimensions: a quarter of the databases in WAL journal mode, rollback/close and direct DML in the middle of session abuse, a writable session maker used for reading, commands naming the database signature file directly.')
 STATES_MEASURE = 'distinct history prefixes (sequences of operation kinds)'
 
 REAL = ['all gambit commands and library entry points used as operations', 'SQLAlchemy + SQLite + h5py/libhdf5 on real files in scratch space', 'ReadOnlySession / file_sessionmaker / CLIContext']
